@@ -2153,7 +2153,7 @@ func VerifC11InterpHist(t *testing.T, c C11HistCase, mk func(db *sql.DB) C11Hist
 }
 
 func TestVerif_C11_hist(t *testing.T) {
-	kit.Run(t, "C11", "hist", kit.Opts{Quick: 3000, Thorough: 160000}, VerifC11GenHist,
+	kit.Run(t, "C11", "hist", kit.Opts{Quick: 3000, Thorough: 96000}, VerifC11GenHist,
 		func(c C11HistCase) kit.Verdict {
 			return VerifC11InterpHist(t, c, func(db *sql.DB) C11HistConn { return NewConnFromDB(db) })
 		})
